@@ -219,8 +219,8 @@ class WorkerRun:
                         else:
                             cid, raises = p[1], p[2]
 
-                            async def cb(cid=cid, raises=raises):
-                                run.ev("callback", id=mid, cb=cid)
+                            async def cb(cid=cid, raises=raises, k=k):
+                                run.ev("callback", id=mid, cb=cid, k=k)
                                 if raises:
                                     raise PlannedError("callback failure")
                             m.add_callback(cb)
@@ -231,7 +231,7 @@ class WorkerRun:
                         name, nxt = api
                         await getattr(m, {"retry": "retry", "forceRetry": "force_retry"}[name])(
                             next_retry=None if nxt is None else us_td(nxt))
-                    run.ev("after_eager", id=mid)      # must never be reached when the response was accepted
+                    run.ev("after_eager", id=mid, k=k)      # must never be reached when the response was accepted
                     return "after-eager"
                 raise ValueError(kind)
             finally:
@@ -414,6 +414,7 @@ def deliveries(run: WorkerRun) -> list[dict]:
     entries that belong to it (up to the next delivery of the same id)."""
     out: list[dict] = []
     cur: dict[str, dict] = {}
+    by_exec: dict[tuple, dict] = {}
     for e in run.events:
         k = e["kind"]
         if k == "deliver":
@@ -431,13 +432,16 @@ def deliveries(run: WorkerRun) -> list[dict]:
         elif k == "actor_start" and e["id"] in cur:
             cur[e["id"]]["body"] = True
             cur[e["id"]]["start_t"] = e["t"]
-        elif k == "actor_end" and e["id"] in cur:
-            cur[e["id"]]["end_t"] = e["t"]
-        elif k == "callback" and e["id"] in cur:
-            cur[e["id"]]["callbacks"].append(e["cb"])
-            cur[e["id"]]["ran"].append([A("cb"), e["cb"]])
-        elif k == "after_eager" and e["id"] in cur:
-            cur[e["id"]]["after_eager"] = True
+            by_exec[(e["id"], e["k"])] = cur[e["id"]]     # execution k of this id belongs to this delivery
+        elif k == "actor_end" and (e["id"], e.get("k")) in by_exec:
+            by_exec[(e["id"], e["k"])]["end_t"] = e["t"]
+        elif k == "callback" and (e["id"], e.get("k")) in by_exec:
+            # (a rejected message may be delivered again while the callbacks of the previous delivery still run)
+            d = by_exec[(e["id"], e["k"])]
+            d["callbacks"].append(e["cb"])
+            d["ran"].append([A("cb"), e["cb"]])
+        elif k == "after_eager" and (e["id"], e.get("k")) in by_exec:
+            by_exec[(e["id"], e["k"])]["after_eager"] = True
         elif k == "store":
             # attribute the store to the job that owns this result id (latest delivery wins when shared)
             owners = [j["id"] for j in run.sc["jobs"] if j.get("result_id", "res-" + j["id"]) == e["id"] and j["id"] in cur]
